@@ -550,16 +550,16 @@ def eval_c17(case, ctx):
     wd = os.path.join(ctx["root"], "c")
     shutil.rmtree(wd, ignore_errors=True)
     a, err = run_c17(case["confs"], case["pre"], case["probes"], wd, True)
-    if a is None:
-        if err and err.startswith("sanitizer"):
-            res.violations.append(V("C17", "memory_error_on_reload", "reloaded daemon: " + err))
-        else:
-            res.inconclusive = "sut_died"
-        return res
     shutil.rmtree(wd, ignore_errors=True)
-    b, err = run_c17(case["confs"], [], case["probes"], wd, False)
+    b, errb = run_c17(case["confs"], [], case["probes"], wd, False)
     if b is None:
-        res.inconclusive = "sut_died"
+        res.inconclusive = "sut_died"      # the fresh daemon itself fails on this probe traffic: not a reload matter
+        return res
+    if a is None:
+        # a daemon freshly started on the new file serves the probes, the reloaded one died or
+        # reported a memory error on the way: it certainly does not treat the client the same way
+        res.violations.append(V("C17", "reloaded_daemon_died", "edits %s: the reloaded daemon %s while a daemon freshly started on the new file serves the same probes"
+                                % (case["edits"], err)))
         return res
     for i, ((la, oa), (lb, ob)) in enumerate(zip(a, b)):
         if oa != ob:
